@@ -76,6 +76,10 @@ Theorem C14_every_close_rerandomises : forall (K : Fld) (st : stage K) rho sig s
   exists stored, closing_view st = Some (stored, s) /\ sig = randomize rho stored.
 Proof. exact every_close_rerandomises. Qed.
 
+Theorem C14_zero_randomiser_close_sends_identity_pair : forall (K : Fld) (st : stage K) sig s, close_of st f0 = Some (sig, s) ->
+  sig = (f0, f0) /\ forall stored, closing_view st = Some (stored, s) -> fst stored <> f0 -> sig <> stored.
+Proof. exact zero_randomiser_close_sends_identity_pair. Qed.
+
 (** the establish and pay messages consist of revealed commitment scalars that are draws of the message, and of commitment /
     signature proofs over draws of the message - so the lemmas above cover every atom *)
 Theorem C14_establish_message_structure : forall (K : Fld) (close_tag : K) (pk : pkey K) cid nonce lock cb mb bfs kbfs ks bfc kbfc kclose c,
@@ -125,6 +129,7 @@ Print Assumptions C14_closing_sigma1_masked.
 Print Assumptions C14_closing_sigma2_masked.
 Print Assumptions C14_closing_signature_differs_from_issued.
 Print Assumptions C14_every_close_rerandomises.
+Print Assumptions C14_zero_randomiser_close_sends_identity_pair.
 Print Assumptions C14_establish_message_structure.
 Print Assumptions C14_pay_message_structure.
 Print Assumptions C14_range_digit_proofs_structure.
